@@ -40,3 +40,30 @@ func TestComments(t *testing.T) {
 		t.Fatalf("wrong grouping: %+v", ops)
 	}
 }
+
+// C06: a hex string with an odd number of digits (the last digit is taken as followed by 0, ISO 32000-1 7.3.4.3) was
+// read by the content stream parser without consuming the closing '>', which was then met as a stray delimiter.
+func TestContentStreamOddHexString(t *testing.T) {
+	for _, src := range []string{"<414> Tj", "<41 4> Tj", "<4>Tj", "[<414> 10 <42>] TJ"} {
+		ops, err := contentstream.NewParser([]byte(src)).Parse()
+		if err != nil {
+			t.Errorf("%q: %v", src, err)
+			continue
+		}
+		if len(ops) != 1 || (ops[0].Operator != "Tj" && ops[0].Operator != "TJ") {
+			t.Errorf("%q: operations %+v", src, ops)
+			continue
+		}
+		var first core.Object = ops[0].Operands[0]
+		if arr, ok := first.(core.Array); ok {
+			first = arr[0]
+		}
+		want := "A@"
+		if src == "<4>Tj" {
+			want = "@"
+		}
+		if s, ok := first.(core.String); !ok || string(s) != want {
+			t.Errorf("%q: first string %q, want %q (as the object parser reads it)", src, first, want)
+		}
+	}
+}
